@@ -3073,6 +3073,19 @@ class Set(Collection):
                 if not is_reverse_call:
                     for undo_func in reversed(undo_funcs): undo_func()
                 raise
+        if is_reverse_call:
+            prev_items, prev_count = set(setdata), setdata.count
+            prev_added = None if setdata.added is None else set(setdata.added)
+            prev_removed = None if setdata.removed is None else set(setdata.removed)
+            was_modified_earlier = obj in cache.modified_collections[attr]
+            modified = cache.modified
+            def undo_func():
+                cache.modified = modified
+                setdata.clear()
+                setdata.update(prev_items)
+                setdata.count, setdata.added, setdata.removed = prev_count, prev_added, prev_removed
+                if not was_modified_earlier: cache.modified_collections[attr].discard(obj)
+            undo_funcs.append(undo_func)
         setdata.clear()
         setdata |= new_items
         if setdata.count is not None: setdata.count = len(new_items)
